@@ -219,6 +219,18 @@ class BodyMixin:
 
     def _collect_multipart(self, body, markup, post, forms, files):
         listified = set()
+
+        def add(dct, key, it):
+            # a repeated name is promoted to a list, separately in each mapping
+            if key in dct:
+                el = dct[key]
+                if (id(dct), key) not in listified:
+                    el = dct[key] = [el]
+                    listified.add((id(dct), key))
+                el.append(it)
+            else:
+                dct[key] = it
+
         for item in FieldStorage.iter_items(body, markup.markups, self.config.max_memfile_size):
             if item.filename:
                 it = FileUpload(
@@ -229,16 +241,8 @@ class BodyMixin:
             else:
                 it = item.value
                 dct = forms
-            key = item.name
-
-            if key in post:
-                el = post[key]
-                if key not in listified:
-                    el = post[key] = dct[key] = [el]
-                    listified.add(key)
-                el.append(it)
-            else:
-                post[key] = dct[key] = it
+            add(post, item.name, it)
+            add(dct, item.name, it)
 
     @cache_in('environ[ ombott.request.forms ]', read_only=True)
     def forms(self):
